@@ -139,6 +139,11 @@ class Contract:
         self.ensures_.append((label, expr))
         return self
 
+    def never_raises(self, *names):
+        """exception classes (with subclasses) that must not escape, even though a broader raises clause covers them"""
+        self.__dict__.setdefault("never_raises_", []).extend(names)
+        return self
+
     def ensures_internal(self, label, expr):
         """a postcondition proved of the body but not exported to callers (it may mention ghost variables)"""
         self.__dict__.setdefault("ensures_internal_", []).append((label, expr))
